@@ -572,8 +572,23 @@ def cross_check(src, seed, n_inputs, methods=("_solv_outp_volt", "_solv_inp_curr
                     real = ("raise", type(ex).__name__)
                 ni += 1
                 hold = []
+                undetermined = False
+                def truthv(c):
+                    """True / False / None for a concretised path-condition conjunct (names are compared under their distinctness axiom)"""
+                    t = conc(z3.substitute(c, (PHASE.z, name_const("ph"))))
+                    if z3.is_true(t): return True
+                    if z3.is_false(t): return False
+                    s_ = z3.Solver(); s_.set("timeout", 2000); s_.add(*distinct_names()); s_.add(z3.Not(t))
+                    if s_.check() == z3.unsat: return True
+                    s_ = z3.Solver(); s_.set("timeout", 2000); s_.add(*distinct_names()); s_.add(t)
+                    if s_.check() == z3.unsat: return False
+                    return None
                 for p in paths:
-                    if all(z3.is_true(conc(c)) for c in p.pc): hold.append(p)
+                    vs = [truthv(c) for c in p.pc]
+                    if any(v is None for v in vs) and not any(v is False for v in vs): undetermined = True
+                    if all(v is True for v in vs): hold.append(p)
+                if undetermined and len(hold) != 1:
+                    ni -= 1; continue          # this sample does not decide every branch condition concretely (new symbolic guard): no verdict from it
                 if len(hold) != 1:
                     mism.append((K, meth, "paths holding: %d" % len(hold), params, vi, off)); continue
                 p = hold[0]
